@@ -84,6 +84,7 @@ type program struct {
 	Scopes map[int]scopeInfo
 	Funs   map[int]funInfo
 	Feat   map[string]int
+	Matrix string // address matrix programs (matrix.go): description
 }
 
 type gen struct {
